@@ -8,6 +8,7 @@ import (
 	"encoding/json"
 	"github.com/markusressel/fan2go/internal"
 	"github.com/prometheus/client_golang/prometheus"
+	"github.com/spf13/viper"
 	"math"
 	"os"
 	"path/filepath"
@@ -49,6 +50,10 @@ type curvesNode struct {
 	D        string       `json:"d"`
 	Type     string       `json:"type"`
 	Members  []int        `json:"members"`
+	// how the member list is written in the YAML text (Load = "yaml" only): "" = block sequence, "flow" = [a, b],
+	// "csv" = the comma string "a,b" (split by the loader's StringToSliceHookFunc), "csvsp" = "a, b" (the loader
+	// yields the ids "a" and " b"; " b" names no curve)
+	Form string `json:"form,omitempty"`
 }
 type curvesSens struct {
 	Id  int    `json:"id"`
@@ -59,11 +64,22 @@ type curvesSens struct {
 type curvesEv struct {
 	Dt   int64        `json:"dt"` // ns the clock advances before this call
 	Sens []curvesSens `json:"sens"`
+	// a second consumer (another fan's controller / another function curve): before this call, after an optional
+	// REAL sleep, the sensors are set to PreSens and the curves Pre are evaluated on their own. Stateless graphs
+	// only, so the model ignores it: a curve's value is a function of the current sensor state alone.
+	SleepMs int          `json:"sleepMs,omitempty"`
+	Pre     []int        `json:"pre,omitempty"`
+	PreSens []curvesSens `json:"preSens,omitempty"`
 }
 type curvesIn struct {
 	Nodes []curvesNode `json:"nodes"` // curve id = index
 	Root  int          `json:"root"`
 	Evs   []curvesEv   `json:"evs"` // curves: successive calls; curvesmono: consecutive pairs (2k, 2k+1)
+	// "" = curve configurations built as structs; "yaml" = the graph is rendered as fan2go.yaml text and loaded
+	// exactly like the daemon does: viper.Reset, InitConfig, read, LoadConfig, Validate, initializeSensors, initializeCurves
+	Load string `json:"load,omitempty"`
+	// controllerAdjustmentTickRate: "" = the default (200ms), else a duration text ("1s", "50ms")
+	Tick string `json:"tick,omitempty"`
 }
 type curvesEvObs struct {
 	Kind  int   `json:"kind"` // 0 value, 1 error, 2 panic
@@ -97,7 +113,7 @@ func curvesBuild(ctx *Ctx, in curvesIn, caseNo int) (root curves.SpeedCurve, set
 	}
 	real := map[int]sensors.Sensor{}
 	virt := map[int]*sensors.VerifSensor{}
-	if len(in.Evs) > 0 {
+	if len(in.Evs) > 0 && in.Load != "yaml" {
 		for _, s := range in.Evs[0].Sens {
 			if pidSensor[s.Id] {
 				v := &sensors.VerifSensor{Id: curvesSid(s.Id)}
@@ -116,50 +132,102 @@ func curvesBuild(ctx *Ctx, in curvesIn, caseNo int) (root curves.SpeedCurve, set
 			}
 		}
 	}
-	cfgs := make([]configuration.CurveConfig, 0, len(in.Nodes))
-	for i, n := range in.Nodes {
-		cfg := configuration.CurveConfig{ID: curvesId(i)}
-		switch n.Kind {
-		case "lin":
-			lc := &configuration.LinearCurveConfig{Sensor: curvesSid(n.Sensor), Min: n.Min, Max: n.Max}
-			if n.HasSteps {
-				lc.Steps = map[int]float64{}
-				for _, st := range n.Steps {
-					lc.Steps[st.K] = pF(st.V)
-				}
-			}
-			cfg.Linear = lc
-		case "pid":
-			cfg.PID = &configuration.PidCurveConfig{Sensor: curvesSid(n.Sensor), SetPoint: pF(n.Set), P: pF(n.P), I: pF(n.I), D: pF(n.D)}
-		case "fn":
-			ids := []string{}
-			for _, m := range n.Members {
-				ids = append(ids, curvesId(m))
-			}
-			cfg.Function = &configuration.FunctionCurveConfig{Type: n.Type, Curves: ids}
-		}
-		cfgs = append(cfgs, cfg)
+	// A configuration may list a function curve before or after its members, so the order is varied (as listed /
+	// reversed / rotated), as a function of the input alone so that a replay uses the same order.
+	order := make([]int, len(in.Nodes))
+	for i := range order {
+		order[i] = i
 	}
-	// The curves are instantiated by the real start-up glue (initializeCurves: NewSpeedCurve + RegisterSpeedCurve in
-	// configuration order). A configuration may list a function curve before or after its members, so the order is
-	// varied (as listed / reversed / rotated), as a function of the input alone so that a replay uses the same order.
 	switch (in.Root + len(in.Nodes)) % 3 {
 	case 1:
-		for a, b := 0, len(cfgs)-1; a < b; a, b = a+1, b-1 {
-			cfgs[a], cfgs[b] = cfgs[b], cfgs[a]
+		for a, b := 0, len(order)-1; a < b; a, b = a+1, b-1 {
+			order[a], order[b] = order[b], order[a]
 		}
 	case 2:
-		k := (in.Root*7 + 3) % len(cfgs)
-		cfgs = append(append([]configuration.CurveConfig{}, cfgs[k:]...), cfgs[:k]...)
+		k := (in.Root*7 + 3) % len(order)
+		order = append(append([]int{}, order[k:]...), order[:k]...)
 	}
-	savedCurves := configuration.CurrentConfig.Curves
-	configuration.CurrentConfig.Curves = cfgs
 	reg := prometheus.NewRegistry()
 	prometheus.DefaultRegisterer, prometheus.DefaultGatherer = reg, reg
-	err := internal.VerifInitializeCurves()
-	configuration.CurrentConfig.Curves = savedCurves
-	if err != nil {
-		panic(err)
+	if in.Load == "yaml" {
+		// the real loader and the real start-up glue, nothing assigned by the driver
+		curves.VerifResetCurves()
+		sensors.VerifResetSensors()
+		dir := filepath.Join(ctx.WorkDir, "cfg")
+		_ = os.MkdirAll(dir, 0o755)
+		var sids []int
+		if len(in.Evs) > 0 {
+			for _, sn := range in.Evs[0].Sens {
+				sids = append(sids, sn.Id)
+				_ = os.WriteFile(filepath.Join(dir, "sensor_"+itoa(sn.Id)), []byte("0\n"), 0o644)
+			}
+		}
+		path := filepath.Join(dir, "fan2go.yaml")
+		if err := os.WriteFile(path, []byte(curvesYaml(in, order, sids, dir)), 0o644); err != nil {
+			panic(err)
+		}
+		viper.Reset()
+		configuration.InitConfig(path)
+		if err := configuration.VerifReadInConfig(); err != nil {
+			panic("curves: yaml read: " + err.Error())
+		}
+		configuration.LoadConfig()
+		_ = catch(func() { curvesLastValidate = configuration.Validate(path) })
+		if err := internal.VerifInitializeSensors(nil); err != nil {
+			panic("curves: initializeSensors: " + err.Error())
+		}
+		real, virt = map[int]sensors.Sensor{}, map[int]*sensors.VerifSensor{}
+		for _, id := range sids {
+			if pidSensor[id] {
+				v := &sensors.VerifSensor{Id: curvesSid(id)}
+				virt[id] = v
+				sensors.RegisterSensor(v) // PID curves call GetValue(): chosen float64 values / errors
+			} else if sn, ok := sensors.GetSensor(curvesSid(id)); ok {
+				real[id] = sn
+			}
+		}
+		if err := internal.VerifInitializeCurves(); err != nil {
+			panic(err)
+		}
+	} else {
+		cfgs := make([]configuration.CurveConfig, 0, len(in.Nodes))
+		for _, i := range order {
+			n := in.Nodes[i]
+			cfg := configuration.CurveConfig{ID: curvesId(i)}
+			switch n.Kind {
+			case "lin":
+				lc := &configuration.LinearCurveConfig{Sensor: curvesSid(n.Sensor), Min: n.Min, Max: n.Max}
+				if n.HasSteps {
+					lc.Steps = map[int]float64{}
+					for _, st := range n.Steps {
+						lc.Steps[st.K] = pF(st.V)
+					}
+				}
+				cfg.Linear = lc
+			case "pid":
+				cfg.PID = &configuration.PidCurveConfig{Sensor: curvesSid(n.Sensor), SetPoint: pF(n.Set), P: pF(n.P), I: pF(n.I), D: pF(n.D)}
+			case "fn":
+				ids := []string{}
+				for _, m := range n.Members {
+					ids = append(ids, curvesId(m))
+				}
+				cfg.Function = &configuration.FunctionCurveConfig{Type: n.Type, Curves: ids}
+			}
+			cfgs = append(cfgs, cfg)
+		}
+		// instantiated by the real start-up glue (initializeCurves: NewSpeedCurve + RegisterSpeedCurve in configuration order)
+		configuration.CurrentConfig.Curves = cfgs
+		// a realistic, non-zero tick rate (the daemon's default is 200ms; the zero value never occurs in a loaded configuration)
+		tick := 200 * time.Millisecond
+		if in.Tick != "" {
+			if d, err := time.ParseDuration(in.Tick); err == nil {
+				tick = d
+			}
+		}
+		configuration.CurrentConfig.ControllerAdjustmentTickRate = tick
+		if err := internal.VerifInitializeCurves(); err != nil {
+			panic(err)
+		}
 	}
 	root, _ = curves.GetSpeedCurve(curvesId(in.Root))
 	set = func(s curvesSens) {
@@ -172,8 +240,124 @@ func curvesBuild(ctx *Ctx, in curvesIn, caseNo int) (root curves.SpeedCurve, set
 	return root, set
 }
 
+var curvesLastValidate error
+
+func curvesYamlFloat(hex string) string { return strconv.FormatFloat(pF(hex), 'g', -1, 64) }
+
+// curvesYaml renders the case as the text of a fan2go.yaml (file sensors, the curve graph in the given order).
+func curvesYaml(in curvesIn, order []int, sids []int, dir string) string {
+	var b strings.Builder
+	b.WriteString("dbPath: " + filepath.Join(dir, "fan2go.db") + "\n")
+	if in.Tick != "" {
+		b.WriteString("controllerAdjustmentTickRate: " + in.Tick + "\n")
+	}
+	if len(sids) == 0 {
+		b.WriteString("sensors: []\n")
+	} else {
+		b.WriteString("sensors:\n")
+	}
+	for _, id := range sids {
+		b.WriteString("  - id: " + curvesSid(id) + "\n    file:\n      path: " + filepath.Join(dir, "sensor_"+itoa(id)) + "\n")
+	}
+	b.WriteString("fans: []\ncurves:\n")
+	for _, i := range order {
+		n := in.Nodes[i]
+		b.WriteString("  - id: " + curvesId(i) + "\n")
+		switch n.Kind {
+		case "lin":
+			b.WriteString("    linear:\n      sensor: " + curvesSid(n.Sensor) + "\n")
+			if n.HasSteps {
+				if len(n.Steps) == 0 {
+					b.WriteString("      steps: {}\n")
+				} else {
+					b.WriteString("      steps:\n")
+					for _, st := range n.Steps {
+						b.WriteString("        - " + itoa(st.K) + ": " + curvesYamlFloat(st.V) + "\n")
+					}
+				}
+			} else {
+				b.WriteString("      min: " + itoa(n.Min) + "\n      max: " + itoa(n.Max) + "\n")
+			}
+		case "pid":
+			b.WriteString("    pid:\n      sensor: " + curvesSid(n.Sensor) + "\n      setPoint: " + curvesYamlFloat(n.Set) +
+				"\n      p: " + curvesYamlFloat(n.P) + "\n      i: " + curvesYamlFloat(n.I) + "\n      d: " + curvesYamlFloat(n.D) + "\n")
+		case "fn":
+			b.WriteString("    function:\n      type: " + n.Type + "\n")
+			ids := make([]string, len(n.Members))
+			for j, m := range n.Members {
+				ids[j] = curvesId(m)
+			}
+			switch {
+			case len(ids) == 0:
+				b.WriteString("      curves: []\n")
+			case n.Form == "flow":
+				b.WriteString("      curves: [ " + strings.Join(ids, ", ") + " ]\n")
+			case n.Form == "csv":
+				b.WriteString("      curves: \"" + strings.Join(ids, ",") + "\"\n")
+			case n.Form == "csvsp":
+				b.WriteString("      curves: \"" + strings.Join(ids, ", ") + "\"\n")
+			default:
+				b.WriteString("      curves:\n")
+				for _, id := range ids {
+					b.WriteString("        - " + id + "\n")
+				}
+			}
+		}
+	}
+	return b.String()
+}
+
+// curvesYamlOk: every number of the case can be written as YAML text (finite floats)
+func curvesYamlOk(in curvesIn) bool {
+	fin := func(h string) bool { v := pF(h); return !math.IsNaN(v) && !math.IsInf(v, 0) }
+	for _, n := range in.Nodes {
+		switch n.Kind {
+		case "lin":
+			for _, st := range n.Steps {
+				if !fin(st.V) {
+					return false
+				}
+			}
+		case "pid":
+			if !fin(n.Set) || !fin(n.P) || !fin(n.I) || !fin(n.D) {
+				return false
+			}
+		}
+	}
+	return true
+}
+
+// the ids the model sees for a member list: with the "a, b" string form every id but the first carries a leading
+// blank and names no registered curve
+func curvesModelMembers(in curvesIn, n curvesNode) []int {
+	if in.Load != "yaml" || n.Form != "csvsp" {
+		return n.Members
+	}
+	res := make([]int, len(n.Members))
+	for j, m := range n.Members {
+		res[j] = m
+		if j > 0 {
+			res[j] = 100000 + m
+		}
+	}
+	return res
+}
+
 func curvesEval(in curvesIn, root curves.SpeedCurve, set func(curvesSens), ev curvesEv) curvesEvObs {
 	util.VerifAdvance(time.Duration(ev.Dt))
+	if ev.SleepMs > 0 {
+		time.Sleep(time.Duration(ev.SleepMs) * time.Millisecond)
+	}
+	if len(ev.Pre) > 0 && curvesStateless(in) {
+		for _, s := range ev.PreSens {
+			set(s)
+		}
+		for _, m := range ev.Pre {
+			if c, ok := curves.GetSpeedCurve(curvesId(m)); ok {
+				_ = catch(func() { _, _ = c.Evaluate() })
+			}
+		}
+	}
 	for _, s := range ev.Sens {
 		set(s)
 	}
@@ -239,7 +423,7 @@ func curvesStateless(in curvesIn) bool {
 }
 
 // ---- Coq rendering ----
-func curvesNodeCoq(i int, n curvesNode) string {
+func curvesNodeCoq(in curvesIn, i int, n curvesNode) string {
 	switch n.Kind {
 	case "lin":
 		steps := "None"
@@ -256,7 +440,7 @@ func curvesNodeCoq(i int, n curvesNode) string {
 	case "pid":
 		return "(" + cZ(i) + ", GPid (mkPidCfg " + cZ(i) + " " + cZ(n.Sensor) + " " + cF(pF(n.Set)) + " " + cF(pF(n.P)) + " " + cF(pF(n.I)) + " " + cF(pF(n.D)) + "))"
 	default:
-		return "(" + cZ(i) + ", GFn " + curvesFnCoq[n.Type] + " " + cZList(n.Members) + ")"
+		return "(" + cZ(i) + ", GFn " + curvesFnCoq[n.Type] + " " + cZList(curvesModelMembers(in, n)) + ")"
 	}
 }
 func curvesEnvCoq(ss []curvesSens, compact bool) string {
@@ -273,7 +457,7 @@ func curvesEnvCoq(ss []curvesSens, compact bool) string {
 func curvesGraphCoq(in curvesIn) string {
 	nodes := make([]string, len(in.Nodes))
 	for i, n := range in.Nodes {
-		nodes[i] = curvesNodeCoq(i, n)
+		nodes[i] = curvesNodeCoq(in, i, n)
 	}
 	return cList(nodes)
 }
@@ -485,6 +669,7 @@ type curvesTreeOpt struct {
 	hostile  bool
 	stepMode []string
 	maxMem   int
+	repeat   bool // member lists that name the same curve more than once (weighted average, doubled sum, ...)
 }
 
 func (g *curvesGen) leaf(o curvesTreeOpt) int {
@@ -521,9 +706,16 @@ func (g *curvesGen) tree(depth int, o curvesTreeOpt) int {
 		n = 0
 		g.tag("fn-empty")
 	}
+	if o.repeat && n < 2 {
+		n = r.Range(2, 4)
+	}
 	var ms []int
 	for i := 0; i < n; i++ {
-		if pick := r.Intn(len(ms) + 1); len(ms) > 0 && r.Chance(1, 10) && pick < len(ms) && !g.hasPid(ms[pick]) {
+		den := 10
+		if o.repeat {
+			den = 2
+		}
+		if pick := r.Intn(len(ms) + 1); len(ms) > 0 && r.Chance(1, den) && pick < len(ms) && !g.hasPid(ms[pick]) {
 			// the same curve referenced twice (a DAG); PID curves are not shared: a second
 			// Evaluate() in the same call changes their CurrentValue()
 			ms = append(ms, ms[pick])
@@ -619,6 +811,99 @@ func (g *curvesGen) sens(hostile bool, pidErr bool) []curvesSens {
 	return ss
 }
 
+// curvesDecorate chooses how the case reaches the code: through the real configuration loader (YAML text, varied
+// spellings of the member lists) or as structs; the tick rate; and - for stateless function-curve roots - a second
+// consumer that evaluates members / sub-curves on its own between the root's calls (real time).
+func curvesDecorate(g *curvesGen, in *curvesIn, yamlNum, yamlDen int, consumer bool, pairs bool) {
+	r := g.rng
+	complete := true
+	for _, n := range in.Nodes {
+		if n.Kind != "fn" && (len(in.Evs) == 0 || n.Sensor >= len(in.Evs[0].Sens)) {
+			complete = false
+		}
+	}
+	in.Tick = []string{"", "", "200ms", "1s"}[r.Intn(4)]
+	if complete && curvesYamlOk(*in) && r.Chance(yamlNum, yamlDen) {
+		in.Load = "yaml"
+		g.tag("load=yaml")
+		for i := range in.Nodes {
+			if in.Nodes[i].Kind == "fn" {
+				in.Nodes[i].Form = []string{"", "", "flow", "csv"}[r.Intn(4)]
+				if len(in.Nodes[i].Members) >= 2 && r.Chance(1, 40) {
+					in.Nodes[i].Form = "csvsp"
+					g.tag("members-csvsp")
+				}
+				if in.Nodes[i].Form != "" {
+					g.tag("members-" + in.Nodes[i].Form)
+				}
+			}
+		}
+	} else {
+		g.tag("load=struct")
+	}
+	if in.Tick != "" {
+		g.tag("tick=" + in.Tick)
+	}
+	if !consumer || !curvesStateless(*in) || in.Nodes[in.Root].Kind != "fn" || len(in.Nodes) < 2 {
+		return
+	}
+	// second consumer: half a tick is 25ms (tick 50ms) or 100ms (the default tick)
+	sleep := 110
+	if r.Chance(3, 4) {
+		in.Tick, sleep = "50ms", 35
+	} else if in.Tick == "1s" {
+		in.Tick = "200ms"
+	}
+	g.tag("second-consumer")
+	pick := func() []int {
+		var res []int
+		for i := range in.Nodes {
+			if i != in.Root && r.Chance(1, 2) {
+				res = append(res, i)
+			}
+		}
+		if len(res) == 0 {
+			res = append(res, in.Nodes[in.Root].Members[0])
+		}
+		return res
+	}
+	shift := func(ss []curvesSens, sign float64) []curvesSens {
+		res := append([]curvesSens{}, ss...)
+		for i := range res {
+			t := pF(res[i].Avg) + sign*float64(r.Range(1000, 40000))
+			res[i] = curvesSens{Id: res[i].Id, Avg: jF(t), Val: jF(t)}
+		}
+		return res
+	}
+	if pairs {
+		// curvesmono: three ordered pairs (A, B) at the front. Either the other consumer evaluated the members at a
+		// HOTTER state just before the root's call at A (and B follows more than half a tick later), or at a COLDER
+		// state just before the root's call at B.
+		var front []curvesEv
+		for j := 0; j < 3 && 2*j+1 < len(in.Evs); j++ {
+			a, b := in.Evs[2*j], in.Evs[2*j+1]
+			a.SleepMs = sleep
+			if r.Bool() {
+				a.Pre, a.PreSens = pick(), shift(b.Sens, +1)
+				b.SleepMs = sleep
+			} else {
+				b.Pre, b.PreSens = pick(), shift(a.Sens, -1)
+			}
+			front = append(front, a, b)
+		}
+		in.Evs = append(front, in.Evs...)
+		return
+	}
+	for e := range in.Evs {
+		if r.Chance(1, 2) {
+			in.Evs[e].Pre, in.Evs[e].PreSens = pick(), g.sens(false, false)
+			if e+1 < len(in.Evs) {
+				in.Evs[e+1].SleepMs = sleep
+			}
+		}
+	}
+}
+
 func curvesHasMid(o curvesObs) bool {
 	for _, e := range o.Evs {
 		if e.Kind == 0 && e.Val > 0 && e.Val < 255 {
@@ -674,9 +959,14 @@ func init() {
 			case k < 6:
 				stream = "stream=lin-steps"
 				root = g.linSteps(allSteps[rng.Intn(4)])
-			case k < 11:
+			case k < 9:
 				stream = "stream=fn-tree"
 				root = g.tree(rng.Range(2, 4), curvesTreeOpt{types: curvesFnTypes, pid: true, stepMode: allSteps, maxMem: 8})
+			case k < 11:
+				stream = "stream=fn-repeated-members" // average(a, a, b), sum(a, a), difference(a, b, b), nested
+				root = g.tree(rng.Range(2, 3), curvesTreeOpt{types: []string{configuration.FunctionSum, configuration.FunctionAverage,
+					configuration.FunctionDifference, configuration.FunctionAverage, configuration.FunctionSum, configuration.FunctionDelta,
+					configuration.FunctionMinimum, configuration.FunctionMaximum}, stepMode: allSteps, maxMem: 5, repeat: true})
 			case k < 13:
 				stream = "stream=pid"
 				root = g.pid([]string{"default", "random", "neg", "random"}[rng.Intn(4)])
@@ -728,6 +1018,13 @@ func init() {
 						in.Evs[e].Sens = in.Evs[e].Sens[:len(in.Evs[0].Sens)]
 					}
 				}
+			}
+			if !hostile {
+				num := 1
+				if stream == "stream=fn-repeated-members" {
+					num = 2
+				}
+				curvesDecorate(g, &in, num, 3, rng.Chance(1, 4), false)
 			}
 			emit(in, g.tagList(stream, "depth="+itoa(g.depthOf(root)))...)
 		}
@@ -858,6 +1155,7 @@ func init() {
 				}
 				addPair(a, b)
 			}
+			curvesDecorate(g, &in, 1, 3, rng.Chance(1, 3), true)
 			emit(in, g.tagList(stream, "depth="+itoa(g.depthOf(root)))...)
 		}
 	}
